@@ -163,7 +163,13 @@ fn main() {
                 "drop_wrapper" => {
                     ntask += 1; *drop_task.lock().unwrap() = Some(ntask);
                     let p = wptr.take().expect("no wrapper");
-                    unsafe { drop(Box::from_raw(p)); }
+                    if a.get(1).and_then(|x| x.as_str()) == Some("unwinding") {
+                        // the owner of the wrapper panics: the wrapper is dropped while this thread unwinds
+                        let b = unsafe { Box::from_raw(p) };
+                        let _ = std::panic::catch_unwind(std::panic::AssertUnwindSafe(move || { let _w = b; std::panic::resume_unwind(Box::new("scripted unwinding")); }));
+                    } else {
+                        unsafe { drop(Box::from_raw(p)); }
+                    }
                     res = json!(["ok"]);
                 }
                 "is_poisoned" => { let w = unsafe { &*wptr.expect("no wrapper") }; res = json!(["ok", w.is_mutex_poisoned()]); }
